@@ -313,6 +313,8 @@ class Body:
         if self._defs is None:
             d = defaultdict(list)
             for b in range(self.n):
+                if b not in self.reachable():
+                    continue      # blocks cut off by constant folding in an inlined view define nothing
                 blk = self.blocks[b]
                 for i, st in enumerate(blk["stmts"]):
                     if st["k"] == "assign":
@@ -639,9 +641,15 @@ def _dominators(n, entry, preds, nodes):
 # facts
 # ---------------------------------------------------------------------------
 class Facts:
-    def __init__(self, path):
-        with open(path) as f:
-            d = json.load(f)
+    @classmethod
+    def from_raw(cls, d, path):
+        """a Facts object over an already loaded (possibly transformed) fact dictionary"""
+        return cls(path, d)
+
+    def __init__(self, path, d=None):
+        if d is None:
+            with open(path) as f:
+                d = json.load(f)
         self.raw = d
         self.path = path
         self.crate = d["crate"]
